@@ -135,6 +135,25 @@ func (c11) Build(tier string, seed uint64) []any {
 		m := c11Modes[i%len(c11Modes)]
 		cs = append(cs, &c11Case{Gen: "big", Codec: m.codec, C: m.c, P: m.p, Quality: 1 + r.Intn(100), W: gen.Pick(r, 255, 256, 257, 511, 512, 100+r.Intn(400)), H: gen.Pick(r, 255, 256, 257, 511, 512, 100+r.Intn(400)), Class: gen.Pick(r, "noise", "checker", "smooth"), CSeed: r.U64()})
 	}
+	// (annot) large busy frames (long Huffman codes) that also contain full-range edges (largest
+	// magnitude categories) at the finest quantisation; (blocks8) saturated flat blocks next to
+	// black ones (largest legal DC differences) at quantiser step 1
+	nAnnot := 200
+	if th {
+		nAnnot = 2000
+	}
+	for i := 0; i < nAnnot; i++ {
+		r := gen.Sub(seed, "C11", "annot", i)
+		m := c11Modes[i%len(c11Modes)]
+		c := &c11Case{Gen: "annot", Codec: m.codec, C: m.c, P: m.p, Quality: gen.Pick(r, 94, 97, 100, 100, 100, 100), W: 512, H: 512, Class: "annot", CSeed: r.U64()}
+		if m.c == 3 && i%2 == 0 {
+			c.C = 1
+		}
+		if i%4 == 3 {
+			c.Gen, c.Class, c.W, c.H = "blocks8", "blocks8", 8*(1+r.Intn(12)), 8*(1+r.Intn(12))
+		}
+		cs = append(cs, c)
+	}
 	return cs
 }
 
